@@ -33,6 +33,7 @@ P_ploop == P("tight", <<"ploop">>)
 P_cowrap == P("tight", <<"cowrap">>)
 P_clear == P("tight", <<"clear">>)
 P_inv == P("tight", <<"inv">>)
+P_deeploop == P("deeprec", <<"ploop">>)
 
 Spec == LTInit(Progs) /\ [][LTNext]_vars /\ Fair
 =============================================================================
